@@ -10,15 +10,15 @@ It does what the real tool does with the plan, nothing else: reads the imports
 map (same line format as pytype.imports_map_loader), opens every mapped file,
 writes its own output.  Every step is logged (one O_APPEND write per event,
 CLOCK_MONOTONIC) to $C19_LOG.  Delays are seeded from $C19_SEED so that a run
-can be repeated.  Standard library only; started with `python -I -S`.
+can be repeated.  Started with `python -I -S`; imports only os/sys/time/zlib
+(json and random would double the start-up time of every step).
 
 Exit status: 0 ok, 3 = a mapped declared output was missing or incomplete.
 """
-import json
 import os
-import random
 import sys
 import time
+import zlib
 
 MARKER = "# C19-COMPLETE\n"
 VALUE_FLAGS = {"--imports_info", "--module-name", "--platform", "-V", "-o", "--disable",
@@ -42,6 +42,41 @@ def parse_argv(argv):
   return opts, flags, pos
 
 
+def jstr(x):
+  if x is None:
+    return "null"
+  if x is True:
+    return "true"
+  if x is False:
+    return "false"
+  if isinstance(x, (int, float)):
+    return repr(x)
+  out = ['"']
+  for ch in str(x):
+    if ch in '"\\':
+      out.append("\\" + ch)
+    elif ch < " ":
+      out.append("\\u%04x" % ord(ch))
+    else:
+      out.append(ch)
+  out.append('"')
+  return "".join(out)
+
+
+class Rng:
+  """Tiny seeded generator (crc32 seeded LCG); uniform() in [a, b)."""
+
+  def __init__(self, key):
+    self.x = zlib.crc32(key.encode()) or 1
+
+  def random(self):
+    self.x = (self.x * 6364136223846793005 + 1442695040888963407) % (1 << 64)
+    return (self.x >> 11) / float(1 << 53)
+
+  def uniform(self, a, b):
+    return a + (b - a) * self.random()
+
+
 def main():
   opts, flags, pos = parse_argv(sys.argv[1:])
   out = opts.get("-o")
@@ -52,15 +87,16 @@ def main():
   dfile = os.environ.get("C19_OUTPUTS")
   if dfile:
     with open(dfile) as f:
-      declared = set(json.load(f))
+      declared = set(f.read().split("\n")) - {""}
   fd = os.open(log_path, os.O_WRONLY | os.O_APPEND | os.O_CREAT, 0o644) if log_path else None
 
   def log(ev, t=None, **kw):
     kw.update(ev=ev, t=time.monotonic() if t is None else t, out=out, pid=os.getpid())
     if fd is not None:
-      os.write(fd, (json.dumps(kw) + "\n").encode())
+      line = "{" + ", ".join(jstr(k) + ": " + jstr(v) for k, v in kw.items()) + "}\n"
+      os.write(fd, line.encode())
 
-  rng = random.Random(f"{seed}|{out}")
+  rng = Rng(f"{seed}|{out}")
   log("start", src=pos[-1] if pos else None, module=opts.get("--module-name"),
       imports=opts.get("--imports_info"), report="--no-report-errors" not in flags,
       nflags=len(flags), npos=len(pos))
